@@ -22,7 +22,7 @@ EXHAUSTIVE_SUBDOMAINS = ["every NL band 1..59 x hemisphere x parity x {airborne,
 ASSUMPTIONS = ["reference latitude clamped to [-90,90], reference longitude wrapped to [-180,180)",
                "box shrunk by two quantisation steps so that float round-off cannot move a reference outside it"]
 REQUIRED = ["airborne", "surface", "parity0", "parity1", "ni_le_0", "ni_gt_0", "ref_across_equator", "ref_across_antimeridian",
-            "ref_across_greenwich", "corner", "routing_checked", "ref_lat_exactly_zero", "ref_lon_exactly_zero"] + \
+            "ref_across_greenwich", "corner", "routing_checked", "ref_lat_exactly_zero", "ref_lon_exactly_zero", "ref_lon_not_folded", "ref_lon_0_360_convention"] + \
            ["band%d_%s" % (nl, s) for nl in range(1, 60) for s in ("air", "sfc")]
 
 
@@ -50,6 +50,12 @@ def m_ref(ctx, case):
         hx = dlon / 2 - 2 * slon
         rlat_ref = max(-90.0, min(90.0, lat + fy * hy))
         rlon_ref = cprgen.wrap180(lon + fx * hx)
+        if case.get("lonconv") == "raw":
+            rlon_ref = lon + fx * hx                 # not folded back: may lie a little beyond +-180
+            ctx.hit("ref_lon_not_folded")
+        elif case.get("lonconv") == "0-360" and rlon_ref < 0:
+            rlon_ref += 360.0                        # receiver longitude in the 0..360 convention
+            ctx.hit("ref_lon_0_360_convention")
         if case.get("zref"):
             # a receiver exactly on the equator and / or on the Greenwich meridian: 0.0 (or int 0) is a value, not "missing"
             z = 0 if case["zref"].endswith("i") else 0.0
@@ -126,7 +132,8 @@ def mkcase(rng, lat, lon, i=None, sfc=None, offs=None):
             "tc": rng.choice((5, 6, 7, 8)) if sfc else rng.choice(list(range(9, 19)) + [20, 21, 22]),
             "mov": rng.randrange(128), "trk": rng.randrange(256), "ss": rng.randrange(4), "alt": rng.fill(12),
             "tbit": rng.randrange(2), "df": rng.choice((17, 17, 18)), "ca": rng.randrange(8), "addr": rng.fill(24),
-            "offs": offs, "lower": rng.random() < 0.1, "intref": rng.random() < 0.1}
+            "offs": offs, "lower": rng.random() < 0.1, "intref": rng.random() < 0.1,
+            "lonconv": rng.choice(("", "", "", "", "", "", "raw", "0-360"))}
 
 
 def cases(ctx):
